@@ -15,7 +15,8 @@ BRACKETS = ["(", ")", "{", "}", "((", "))", "()", "{}"]
 QUOTES = ["'", '"', "`", "'a", "a'", '"x y', "`z", "'a b'", '"q"', "`w`", "''", '""']
 NUMS = ["0", "1", "2", "10", "-1", "007", "1.5", "1e3", "99999999999999999999", "4294967296", "1k", "2mb", "5x"]
 GLOBS = ["*", "*.txt", "?", "a*", "[a]", "%", "_", "a?b", "**"]
-DATES = ["2020-01-01", "2020-13-45", "today", "yesterday", "'2017-05-01 25'", "'2017-05-01 10:99'", "1970-01-01", "2999-12-31", "-1", "+1"]
+DATES = ["2020-01-01", "2020-13-45", "today", "yesterday", "'2017-05-01 25'", "'2017-05-01 10:99'", "1970-01-01", "2999-12-31", "-1", "+1",
+         "'-ab'", "'+x'", "'-zz'", "'+-1'", "'-9999999999'", "'+99999999999999999999'", "'apr 1'", "'last fri'", "'01/05'", "'32/13'", "'0000-00-00'"]
 COLS = ["name", "size", "path", "ext", "modified", "is_dir", "mode", "uid", "*", "fsize", "sha1", "line_count", "width", "mime",
         "caps", "has_xattrs", "is_binary", "abspath", "user", "group"]
 FUNCS = ["lower", "upper", "length", "substr", "replace", "concat", "format_size", "format_time", "power", "sqrt", "log", "abs",
@@ -53,6 +54,9 @@ DIRECTED = [
     ("bad-date", "name from t where modified > '2017-05-01 25'", 2), ("bad-date", "name from t where modified = '2017-13-01'", 2),
     ("bad-date", "name from t where modified < '2017-02-30'", 2), ("bad-date", "name from t where modified = garbage", 2),
     ("bad-date", "name from t where modified = '2017-05-01 10:61'", 2), ("bad-date", "name from t where modified >= +x", 2),
+    ("bad-date", "name from t where modified = '-ab'", 2), ("bad-date", "name from t where modified > '+x'", 2),
+    ("bad-date", "name from t where modified = '-'", 2), ("bad-date", "name from t where modified < '+1.5'", 2),
+    ("bad-date", "name from t where modified = '--1'", 2),
     ("bad-boolean", "name from t where is_dir = maybe", 2), ("bad-boolean", "name from t where is_file != 2", 2),
     ("bad-boolean", "name from t where user_read = 'si'", 2),
     ("bad-function-argument", "rand(x) from t", 2), ("bad-function-argument", "rand(1, y) from t", 2),
@@ -94,6 +98,48 @@ def gen_structured(rng):
     if rng.random() < 0.4:
         toks += ["into"] + junk(0, 2)
     return sanitise(toks)
+
+
+def gen_combo(rng):
+    """A well-formed query combining clauses that are rarely used together (aggregates x GROUP BY x ORDER BY on keys that
+    may or may not be selected x LIMIT x every format x root options)."""
+    aggs = ["count(*)", "sum(size)", "min(size)", "max(size)", "avg(size)", "stddev(size)", "var_samp(size)", "max(length(name))"]
+    plain = ["name", "size", "ext", "path", "modified", "is_dir", "mode", "upper(name)", "size + 1", "length(name)", "uid"]
+    keys = ["ext", "dir", "is_dir", "uid", "length(name)", "mode"]
+    kind = rng.choice(["grouped", "grouped", "aggregate", "plain"])
+    toks = []
+    if kind == "grouped":
+        gk = rng.sample(keys, rng.choice([1, 1, 2]))
+        sel = rng.sample(aggs, rng.randint(1, 3))
+        if rng.random() < 0.6:
+            sel = gk[:rng.randint(0, len(gk))] + sel
+        rng.shuffle(sel)
+        toks = [", ".join(sel), "from", rng.choice(["t", "t, t2", "t depth 2", "t dfs", "t archives"])]
+        if rng.random() < 0.4:
+            toks += ["where", rng.choice(["size > 0", "is_file", "name like '%t%'", "not is_dir"])]
+        toks += ["group by", ", ".join(gk)]
+        if rng.random() < 0.7:
+            ok = rng.sample(keys + aggs + ["1", "2", "name", "size"], rng.randint(1, 3))
+            toks += ["order by", ", ".join(k + rng.choice(["", " desc", " asc"]) for k in ok)]
+    elif kind == "aggregate":
+        toks = [", ".join(rng.sample(aggs, rng.randint(1, 4))), "from", rng.choice(["t", "t2", "t, t2", "nowhere"])]
+        if rng.random() < 0.5:
+            toks += ["where", rng.choice(["size > 100000", "is_file", "ext = 'zzz'"])]
+        if rng.random() < 0.4:
+            toks += ["order by", rng.choice(keys + aggs + ["1"])]
+    else:
+        sel = rng.sample(plain, rng.randint(1, 4))
+        toks = [", ".join(sel), "from", rng.choice(["t", "t sym", "t arc", "t gitignore", "t mindepth 2", "t, t2 dfs"])]
+        if rng.random() < 0.5:
+            toks += ["where", rng.choice(["size > 0 or is_dir", "name =~ 't'", "modified > 2000-01-01", "size between 1 and 50", "uid = 0"])]
+        if rng.random() < 0.6:
+            ok = rng.sample(plain + ["1", str(len(sel))], rng.randint(1, 3))
+            toks += ["order by", ", ".join(k + rng.choice(["", " desc"]) for k in ok)]
+    if rng.random() < 0.5:
+        toks += ["limit", str(rng.choice([0, 1, 2, 3, 100]))]
+    if rng.random() < 0.7:
+        toks += ["into", rng.choice(FORMATS[:6])]
+    return toks
 
 
 def sanitise(toks):
@@ -209,9 +255,12 @@ def run_job(job):
                 if c < 0.3:
                     toks = gen_soup(rng)
                     cls = "soup"
-                elif c < 0.5:
+                elif c < 0.45:
                     toks = gen_structured(rng)
                     cls = "structured-soup"
+                elif c < 0.6:
+                    toks = gen_combo(rng)
+                    cls = "clause-combination"
                 elif c < 0.9:
                     toks_, _simple = c11.gen_query(rng)
                     toks = c11.render(toks_)
@@ -226,6 +275,11 @@ def run_job(job):
                     if rng.random() < 0.3:
                         toks = ["name", "from", "t", "where", "%s(%s%s)" % (f, a, b if a else ""), rng.choice(["=", ">", "like"]), rng.choice(["1", "x", "true"])]
                     cls = "function-args"
+                if cls == "clause-combination":
+                    args = [" ".join(toks)]
+                    if go(args, None, cls) and i % 50 == 0:
+                        res.sample({"class": cls, "args": args}, cap=4)
+                    continue
                 args = [" ".join(toks)] if rng.random() < 0.6 else toks
                 if go(args, None, cls) and i % 50 == 0:
                     res.sample({"class": cls, "args": args}, cap=4)
